@@ -9,7 +9,7 @@ wt=/tmp/seedwt/$id-$m
 [ -f "$src/patch.diff" ] || { echo "no patch at $src"; exit 2; }
 export GOFLAGS=-mod=mod GOPROXY=off
 rm -rf "$wt"; mkdir -p /tmp/seedwt
-git -C /repo worktree add --detach "$wt" 8073da8 >/dev/null 2>&1 || { echo "worktree failed"; exit 2; }
+git -C /repo worktree add --detach "$wt" ${BASE:-HEAD} >/dev/null 2>&1 || { echo "worktree failed"; exit 2; }
 cd "$wt"
 demo_pkg=$(python3 -c "import json;print(json.load(open('$src/meta.json'))['demo_pkg_dir'])")
 demo_file=$(python3 -c "import json;print(json.load(open('$src/meta.json'))['demo_file'])")
